@@ -87,140 +87,191 @@ def _lexing(ctx) -> None:
 
 
 def _typing(ctx) -> None:
+    from ..symx import Interp as SInterp
+    from ..symx import NONE as SNONE
+    from ..symx import const, show, show_conds, subterms
     prog = ctx.prog
     f = prog.func("csv._infer_type")
-    v = f.params[0]
-    body = [s for s in f.body if not (isinstance(s, ast.Expr) and isinstance(s.value, ast.Constant))]
+    it = SInterp(prog, f)
+    v = ("param", f.params[0])
+    T = ("call", ("attr", v, "strip"), (), ())
     problems = []
+    rets = [e for e in it.events if e.kind == "return" and e.depth == 0]
     kinds = []
-    for s in body:
-        if isinstance(s, ast.If) and isinstance(s.body[0], ast.Return) and short(s.body[0].value) == "None":
+    excepts_seen: List = []
+
+    def blank_lit(t, pol) -> bool:
+        """does (t, pol) say: the stripped text is empty?"""
+        if t == ("cmp", "Eq", T, const("")) and pol:
+            return True
+        if t == T and not pol:
+            return True
+        if t[0] == "bool" and t[1] == "or" and pol:
+            return any(blank_lit(x, True) or (x[0] == "un" and x[1] == "Not" and x[2] == T) for x in t[2])
+        return False
+    blank_covered = False
+    for e in rets:
+        t = e.term
+        exc = [c for c, pol in e.conds if c[0] == "call" and c[1] == ("name", "<except>") and pol]
+        if t == SNONE:
             kinds.append("blank")
-            t = short(s.test)
-            if f"{v}.strip() == ''" not in t and f"not {v}.strip()" not in t:
-                problems.append(f"the blank test is `{t}`: whitespace-only cells would not become None")
-        elif isinstance(s, ast.Assign) and short(s.value) == f"{v}.strip()" and short(s.targets[0]) == v:
-            kinds.append("strip")
-        elif isinstance(s, ast.Try):
-            r = s.body[0]
-            conv = short(r.value.func) if isinstance(r, ast.Return) and isinstance(r.value, ast.Call) else "?"
-            kinds.append(conv)
-            if not (isinstance(r, ast.Return) and short(r.value) == f"{conv}({v})"):
-                problems.append(f"conversion `{short(r, 40)}` is not {conv}(<the stripped text>)")
-            hs = [short(h.type) if h.type is not None else "bare" for h in s.handlers]
-            if hs != ["ValueError"]:
-                problems.append(f"{conv}() failures are caught as {hs}, expected only ValueError")
-            if not all(isinstance(x, ast.Pass) for h in s.handlers for x in h.body):
-                problems.append(f"a failed {conv}() does not simply fall through to the next candidate")
-        elif isinstance(s, ast.Return):
+            if e.conds and blank_lit(*e.conds[-1]):
+                blank_covered = True
+            elif not (e.conds and (e.conds[-1] == (v, False) or blank_lit(*e.conds[-1]))):
+                problems.append(f"None is returned under `{show_conds(e.conds[-1:], it)[:60]}`")
+        elif t[0] == "call" and t[1][0] == "name" and t[1][1] in ("int", "float") and len(t[2]) == 1:
+            kinds.append(t[1][1])
+            if t[2] != (T,):
+                problems.append(f"conversion `{show(t, it)[:40]}` is not {t[1][1]}(<the stripped text>)")
+            excepts_seen.append(exc)
+        else:
             kinds.append("text")
-            if short(s.value) != v:
-                problems.append(f"the fallback returns `{short(s.value)}`, not the stripped text")
-    if kinds != ["blank", "strip", "int", "float", "text"]:
-        problems.append(f"cell typing order is {kinds}, expected blank -> strip -> int -> float -> text")
+            if t != T:
+                problems.append(f"the fallback returns `{show(t, it)[:40]}`, not the stripped text")
+            excepts_seen.append(exc)
+    if not blank_covered:
+        problems.append("no `return None` is taken exactly when the STRIPPED text is empty: whitespace-only cells would not become None")
+    dedup = [k for i, k in enumerate(kinds) if i == 0 or kinds[i - 1] != k]
+    if dedup != ["blank", "int", "float", "text"]:
+        problems.append(f"cell typing order is {dedup}, expected blank -> int -> float -> text (on the stripped text)")
+    # each failed conversion is caught as ValueError only, and falls through to the next candidate
+    allexc = []
+    for e in it.events:
+        for c, pol in e.conds:
+            if c[0] == "call" and c[1] == ("name", "<except>") and c not in allexc:
+                allexc.append(c)
+    hs = [show(c[2][0], it) for c in allexc]
+    if any(h != "ValueError" for h in hs):
+        problems.append(f"conversion failures are caught as {hs}, expected only ValueError")
+    if dedup == ["blank", "int", "float", "text"] and [len(x) for x in excepts_seen] != [0, 1, 2]:
+        problems.append("a failed conversion does not simply fall through to the next candidate")
+    for e in it.events:
+        if e.kind in ("store", "raise", "yield") or (e.kind == "call" and e.term[1][0] == "name" and e.term[1][1] not in ("int", "float")):
+            problems.append(f"unexpected effect in the cell typer: `{show(e.term, it)[:50]}`")
+    seen = set()
+    problems = [p for p in problems if not (p in seen or seen.add(p))]
     ctx.ob("b.cell-typing", f, "order", not problems, "blank -> None; int; float; stripped text", f.node, message="; ".join(problems))
 
 
-def _roles(prog):
-    """Roles of the locals of _read_csv_from_file, found by dataflow: reader, all records, header, data records."""
-    g = prog.func("csv._read_csv_from_file")
-    d = Defs(g)
-    r = {"reader": None, "all": None, "header": None, "rows": None, "hh": None}
-    for n, lst in d.assigns.items():
-        for v, st, how in lst:
-            if v is not None and isinstance(v, ast.Call) and short(v.func) == "csv.reader":
-                r["reader"] = n
-    for n, lst in d.assigns.items():
-        for v, st, how in lst:
-            if v is not None and r["reader"] and short(v) == f"list({r['reader']})":
-                r["all"] = n
-    hh = [s for s in g.body if isinstance(s, ast.If) and short(s.test) == "has_header"]
-    if hh and r["all"]:
-        r["hh"] = hh[0]
-        for s in hh[0].body:
-            if isinstance(s, ast.Assign) and isinstance(s.targets[0], ast.Name):
-                if short(s.value) == f"{r['all']}[0]":
-                    r["header"] = s.targets[0].id
-                elif short(s.value) == f"{r['all']}[1:]":
-                    r["rows"] = s.targets[0].id
-    return g, d, r
+class _Csv:
+    """Roles of _read_csv_from_file as terms: reader, all records, header, data records."""
+
+    def __init__(self, prog):
+        from ..symx import Interp as SInterp
+        from ..symx import const
+        self.g = g = prog.func("csv._read_csv_from_file")
+        self.it = it = SInterp(prog, g)
+        self.reader = None
+        for e in it.events:
+            if e.kind == "call" and e.term[1] == ("attr", ("name", "csv"), "reader"):
+                self.reader = e.term
+        self.all = None
+        for oid, o in it.objs.items():
+            if o.kind == "list" and isinstance(o.node, ast.Call) and self.reader is not None and o.init == (self.reader,):
+                self.all = ("obj", oid)
+        self.hh = ("param", "has_header")
+
+    def header_forms(self):
+        from ..symx import const
+        A = self.all
+        return ("sub", A, const(0)), ("sub", A, ("slice", const(1), ("const", "NoneType", None), ("const", "NoneType", None)))
 
 
 def _shape(ctx) -> None:
+    from ..symx import NONE as SNONE
+    from ..symx import const, elements, kw, show, show_conds
     prog = ctx.prog
-    g, d, R = _roles(prog)
+    R = _Csv(prog)
+    g, it = R.g, R.it
+    sh = lambda t, n=60: show(t, it)[:n] if t is not None else "?"
     problems = []
-    if not R["reader"] or not R["all"]:
+    if R.reader is None or R.all is None:
         problems.append("all records are not materialised from csv.reader(...) with list()")
-    if not R["header"] or not R["rows"]:
-        problems.append("with a header the first record is not taken as header and the rest as data records")
+        ctx.ob("c.shape", g, "split", False, "", g.node, message="; ".join(problems))
+        return
+    first, rest = R.header_forms()
+    rets = [e for e in it.events if e.kind == "return" and e.depth == 0]
+    final = max(rets, key=lambda e: e.seq)
+    cols = final.term[2][0] if (final.term[0] == "call" and final.term[1] == ("name", "Table") and len(final.term[2]) == 1) else None
+    header = rows = None
+    tp = []
+    if cols is None or cols[0] != "obj" or it.objs[cols[1]].kind not in ("list", "listcomp"):
+        tp.append(f"returns `{sh(final.term)}`, expected Table(<list of columns>)")
     else:
-        hdrs = sorted(cshort(v, {R["all"]: "ALL"}) for v in d.values(R["header"]))
-        rows = sorted(cshort(v, {R["all"]: "ALL"}) for v in d.values(R["rows"]))
-        if hdrs != sorted(["ALL[0]", "[f'col_{_0}' for _0 in range(len(ALL[0]))]"]):
-            problems.append(f"header is {hdrs}; expected the first record, or col_0.. for header-less input")
-        if rows != sorted(["ALL[1:]", "ALL"]):
-            problems.append(f"data records are {rows}; expected all records but the first with a header, all records without")
-    ctx.ob("c.shape", g, "split", not problems, "header / data split", g.node, message="; ".join(problems))
-    HEADER, ROWS = R["header"] or "header", R["rows"] or "rows"
-    # transposition
-    problems = []
-    outer = [s for s in g.body if isinstance(s, ast.For)]
-    ret = g.body[-1]
-    colsv = ret.value.args[0].id if (isinstance(ret, ast.Return) and isinstance(ret.value, ast.Call) and short(ret.value.func) == "Table"
-                                     and ret.value.args and isinstance(ret.value.args[0], ast.Name)) else "columns"
-    buf = "column_data"
-    if len(outer) != 1:
-        problems.append("the column loop is not a single top-level loop (zip/zip_longest based transposition takes its width from the "
-                        "records, not from the header)")
-    else:
-        lp = outer[0]
-        r = lp.iter
-        ci = lp.target.id if isinstance(lp.target, ast.Name) else "?"
-        if not (isinstance(r, ast.Call) and short(r.func) == "range" and len(r.args) == 1 and short(d.resolve(r.args[0])) == f"len({HEADER})"):
-            problems.append(f"columns range over `{short(r)}`, not range(len(header)): one column per header cell")
-        app0 = [n for n in walk_no_nested(lp) if isinstance(n, ast.Call) and short(n.func) == f"{colsv}.append"]
-        if app0 and isinstance(app0[0].args[0], ast.Call) and app0[0].args[0].args and isinstance(app0[0].args[0].args[0], ast.Name):
-            buf = app0[0].args[0].args[0].id
-        inner = [s for s in lp.body if isinstance(s, ast.For)]
-        if len(inner) != 1 or short(inner[0].iter) != ROWS:
-            problems.append("not every data record is visited for every column")
+        els = elements(it, cols)
+        if len(els) != 1 or it.objs[cols[1]].init:
+            tp.append("the column loop is not a single pass (zip/zip_longest based transposition takes its width from the records, not from "
+                      "the header)")
         else:
-            il = inner[0]
-            rv = il.target.id
-            if len(il.body) != 1 or not isinstance(il.body[0], ast.If):
-                problems.append("the per-record body is not the jagged-row if/else")
+            ce = els[0]
+            vec = ce.value if ce.kind == "elem" else (ce.term[2][0] if ce.term[2] else None)
+            lps = [L for L in ce.loops if L not in it.objs[cols[1]].loops]
+            if len(lps) != 1 or vec is None or not (vec[0] == "call" and vec[1] == ("name", "Vector") and vec[2]):
+                tp.append(f"a column is built as `{sh(vec)}`, expected Vector(<cells>, name=<header cell>)")
             else:
-                i = il.body[0]
-                if short(i.test) != f"{ci} < len({rv})":
-                    problems.append(f"short records are detected by `{short(i.test)}`, expected `{ci} < len({rv})`")
-                body_t = " ".join(short(x, 100) for x in i.body)
-                typed = [n for x in i.body for n in walk_no_nested(x) if isinstance(n, ast.Call) and short(n.func) == "_infer_type" and n.args]
-                cell_ok = False
-                for n in typed:
-                    a0 = n.args[0]
-                    if isinstance(a0, ast.Name):
-                        defs_ = [x.value for x in i.body if isinstance(x, ast.Assign) and short(x.targets[0]) == a0.id]
-                        a0 = defs_[0] if defs_ else a0
-                    cell_ok = cell_ok or short(a0) == f"{rv}[{ci}]"
-                if not cell_ok:
-                    problems.append("present cells are not typed by _infer_type(row[col_idx])")
-                if [short(x) for x in i.orelse] != [f"{buf}.append(None)"]:
-                    problems.append(f"a record shorter than the header is handled by {[short(x) for x in i.orelse]}, expected one None")
-        app = [n for n in walk_no_nested(lp) if isinstance(n, ast.Call) and short(n.func) == f"{colsv}.append"]
-        if len(app) != 1 or short(app[0].args[0]) != f"Vector({buf}, name={HEADER}[{ci}])":
-            problems.append(f"a column is built as `{short(app[0].args[0], 60) if app else '?'}`, expected Vector(<cells>, "
-                            f"name=header[{ci}]) - the header cell verbatim, dtype inferred")
-        init = [s for s in lp.body if isinstance(s, ast.Assign) and short(s.targets[0]) == buf]
-        if not init or short(init[0].value) != "[]":
-            problems.append("the column buffer is not fresh per column")
-    cols = d.values(colsv)
-    if not cols or short(cols[0]) != "[]":
-        problems.append("columns are not collected in a list")
-    if not (isinstance(ret, ast.Return) and short(ret.value) == f"Table({colsv})"):
-        problems.append(f"returns `{short(ret, 50)}`, expected Table(<list of columns>)")
-    ctx.ob("c.shape", g, "transpose", not problems, "column-major transposition with None padding, verbatim names", outer[0] if outer else g.node,
-           message="; ".join(problems))
+                Lc = lps[0]
+                lc = it.loops[Lc]
+                nm = kw(vec, "name")
+                if nm is not None and nm[0] == "elem" and nm[2] == Lc:
+                    header = nm[1]
+                if header is None:
+                    tp.append(f"a column is named `{sh(nm)}`, expected the header cell of its own position, verbatim")
+                else:
+                    dom = lc.domain if (lc.domain is not None and lc.domain[0] != "tuple") else (lc.iter if lc.range is None else None)
+                    covers = (dom == header) or (lc.range is not None and lc.range[0] == const(0) and lc.range[2] == const(1)
+                                                 and lc.range[1] == ("call", ("name", "len"), (header,), ()))
+                    if not covers:
+                        tp.append(f"columns range over `{sh(lc.iter)}`, not over the header positions: one column per header cell")
+                if kw(vec, "dtype") is not None or len(vec[2]) > 1:
+                    tp.append("a column is given an explicit dtype")
+                if ce.conds[len(lc.conds):]:
+                    tp.append(f"a column is produced only under `{show_conds(ce.conds[len(lc.conds):], it)[:50]}`")
+                data = vec[2][0]
+                if data[0] != "obj" or it.objs[data[1]].kind not in ("list", "listcomp") or it.objs[data[1]].init:
+                    tp.append(f"column cells are `{sh(data)}`, not a list filled from the data records")
+                else:
+                    if Lc not in it.objs[data[1]].loops:
+                        tp.append("the column buffer is not fresh per column")
+                    des = elements(it, data)
+                    rowloops = {tuple(L for L in d.loops if L not in ce.loops) for d in des}
+                    if len(rowloops) != 1 or len(next(iter(rowloops))) != 1:
+                        tp.append("not every data record is visited exactly once for every column")
+                    else:
+                        Lr = next(iter(rowloops))[0]
+                        rows = it.loops[Lr].iter
+                        row = ("elem", rows, Lr)
+                        cell = ("call", ("name", "_infer_type"), (("sub", row, ("idx", Lc)),), ())
+                        present = ("cmp", "Lt", ("idx", Lc), ("call", ("name", "len"), (row,), ()))
+                        base = len(it.loops[Lr].conds)
+                        got = []
+                        for d in des:
+                            val = d.value if d.kind == "elem" else (d.term[2][0] if d.term[2] else None)
+                            got.append((tuple(d.conds[base:]), val))
+                        okc = False
+                        if len(got) == 2:
+                            m = {c: v for c, v in got}
+                            okc = m.get(((present, True),)) == cell and m.get(((present, False),)) == SNONE
+                        elif len(got) == 1 and not got[0][0]:
+                            okc = got[0][1] == ("ifexp", present, cell, SNONE)
+                        if not okc:
+                            desc = "; ".join(f"{show_conds(c, it)[:40]} -> {sh(v, 40)}" for c, v in got)
+                            tp.append(f"cells are filled as [{desc}]: expected _infer_type(row[col]) when the record has that field, one None "
+                                      f"otherwise, for EVERY data record")
+    # header / rows provenance
+    hp = []
+    if header is not None:
+        want_h = ("ifexp", R.hh, first, None)
+        ok_h = header[0] == "ifexp" and header[1] == R.hh and header[2] == first and _is_generated_names(it, header[3], R.all)
+        if not ok_h:
+            hp.append(f"header is `{sh(header, 90)}`; expected the first record, or col_0.. for header-less input")
+    if rows is not None:
+        if rows != ("ifexp", R.hh, rest, R.all):
+            hp.append(f"data records are `{sh(rows, 90)}`; expected all records but the first with a header, all records without")
+    if header is None or rows is None:
+        hp.append("header / data records of the transposition not identified")
+    ctx.ob("c.shape", g, "split", not hp, "header / data split", g.node, message="; ".join(hp))
+    ctx.ob("c.shape", g, "transpose", not tp, "column-major transposition with None padding, verbatim names", final.node,
+           message="; ".join(tp))
     # R-NAMEKEY: no dict keyed by header / column names on the way to the result
     bad = []
     for n in walk_no_nested(g.node):
@@ -233,24 +284,65 @@ def _shape(ctx) -> None:
            message=f"a dict on the path that builds the result table would collapse repeated header names: {bad}")
 
 
+def _is_generated_names(it, t, ALL) -> bool:
+    """[f'col_{i}' for i in range(len(ALL[0]))]"""
+    from ..symx import NONE as SNONE
+    from ..symx import const
+    if t[0] != "obj" or it.objs[t[1]].kind != "listcomp":
+        return False
+    evs = [e for e in it.events if e.kind == "elem" and e.term == t]
+    if len(evs) != 1:
+        return False
+    e = evs[0]
+    lps = [L for L in e.loops if L not in it.objs[t[1]].loops]
+    if len(lps) != 1:
+        return False
+    lp = it.loops[lps[0]]
+    rng = lp.range is not None and lp.range[0] == const(0) and lp.range[2] == const(1) \
+        and lp.range[1] == ("call", ("name", "len"), (("sub", ALL, const(0)),), ())
+    val = e.value == ("fstr", (const("col_"), ("fmt", ("idx", lp.id), -1, SNONE)))
+    return bool(rng and val and e.conds == it.objs[t[1]].conds)
+
+
 def _nodata(ctx) -> None:
+    from ..symx import const, elements, kw, show
     prog = ctx.prog
-    g, d, R = _roles(prog)
-    e = [s for s in g.body if isinstance(s, ast.If) and short(s.test) == f"not {R['all']}"]
-    ok = bool(e) and isinstance(e[0].body[0], ast.Return) and short(e[0].body[0].value) in ("Table()", "Table(())", "Table([])")
-    ctx.ob("d.no-data", g, "empty", ok, "empty input -> Table()", e[0] if e else g.node, message="empty input does not return an empty Table")
-    h = [s for s in g.body if isinstance(s, ast.If) and short(s.test) == f"not {R['rows']}"]
+    R = _Csv(prog)
+    g, it = R.g, R.it
+    rets = [e for e in it.events if e.kind == "return" and e.depth == 0]
+    empty = [e for e in rets if e.conds and e.conds[-1] == (R.all, False)]
+    ok = len(empty) == 1 and empty[0].term[0] == "call" and empty[0].term[1] == ("name", "Table") and not empty[0].term[3] and (
+        not empty[0].term[2] or (empty[0].term[2][0][0] == "tuple" and not empty[0].term[2][0][1])
+        or (empty[0].term[2][0][0] == "obj" and not it.objs[empty[0].term[2][0][1]].init and not elements(it, empty[0].term[2][0])))
+    ctx.ob("d.no-data", g, "empty", ok, "empty input -> Table()", empty[0].node if empty else g.node,
+           message="empty input does not return an empty Table")
+    first, rest = R.header_forms()
+    rows = ("ifexp", R.hh, rest, R.all)
+    ho = [e for e in rets if e.conds and e.conds[-1] == (rows, False)]
     problems = []
-    if not h:
-        problems.append("header-only branch not found")
+    if len(ho) != 1:
+        problems.append("header-only branch not found (a return taken exactly when there are no data records)")
     else:
-        r = h[0].body[-1]
-        v = cshort(r.value, {R["header"]: "HEADER"}) if isinstance(r, ast.Return) else "?"
-        if v not in ("Table([Vector((), name=_0) for _0 in HEADER])", "Table([Vector([], name=_0) for _0 in HEADER])"):
-            problems.append(f"header-only input returns `{v}`, expected Table([Vector((), name=col) for col in header]) (a list: repeated "
-                            f"names survive; empty data: no truthiness test on a Vector)")
-        # must come before the column loop and after the header/rows split
-    ctx.ob("d.no-data", g, "header-only", not problems, "header-only input -> one empty named column per header cell", h[0] if h else g.node,
+        t = ho[0].term
+        okh = False
+        if t[0] == "call" and t[1] == ("name", "Table") and len(t[2]) == 1 and t[2][0][0] == "obj" \
+                and it.objs[t[2][0][1]].kind in ("listcomp", "list"):
+            els = elements(it, t[2][0])
+            if len(els) == 1:
+                e = els[0]
+                v = e.value if e.kind == "elem" else (e.term[2][0] if e.term[2] else None)
+                lps = [L for L in e.loops if L not in it.objs[t[2][0][1]].loops]
+                if len(lps) == 1 and v is not None and v[0] == "call" and v[1] == ("name", "Vector") and len(v[2]) == 1 \
+                        and kw(v, "dtype") is None:
+                    d0 = v[2][0]
+                    empty_data = (d0[0] == "tuple" and not d0[1]) or (d0[0] == "obj" and not it.objs[d0[1]].init and not elements(it, d0))
+                    hdr = it.loops[lps[0]].iter
+                    okh = empty_data and kw(v, "name") == ("elem", hdr, lps[0]) and hdr is not None and hdr[0] == "ifexp" \
+                        and hdr[2] == first and not e.conds[len(it.objs[t[2][0][1]].conds):]
+        if not okh:
+            problems.append(f"header-only input returns `{show(t, it)[:80]}`, expected Table([Vector((), name=col) for col in header]) (a list: "
+                            f"repeated names survive; empty data: no truthiness test on a Vector)")
+    ctx.ob("d.no-data", g, "header-only", not problems, "header-only input -> one empty named column per header cell", ho[0].node if ho else g.node,
            message="; ".join(problems))
     # R-TRUTH (information): truthiness tests on expressions that may be Vectors
     f = prog.func("vector.Vector.__new__")
